@@ -47,14 +47,22 @@ func checkC11(c *C01Case) *Violation {
 		worlds = append(worlds, &World{Seed: s})
 	}
 	for _, opt := range []bool{false, true} {
-		res := Compile(src, Opts{Optimize: opt, Auto: c.Auto, FontPath: "@repo"})
+		res := Compile(src, Opts{Optimize: opt, Auto: c.Auto, FontPath: "@repo", Switches: c.Switches})
 		if !res.OK() {
 			if res.Panic != nil || res.Budget {
 				return viol("crash", "opt=%v %s\n--- source\n%s", opt, res.Describe(), src)
 			}
 			return viol("rejected", "a well-formed AutoVar program was rejected: %v\n--- source\n%s", res.Err, src)
 		}
-		v, _ := diffExec(ExpandConsts(c.File), c.Auto, res.Out, worlds, fmt.Sprintf("opt=%v", opt))
+		model := c.File
+		if c.Switches != nil {
+			r, ok := Resolve(model, c.Switches)
+			if !ok {
+				panic("harness: C11 poryswitches always have a fallback")
+			}
+			model = r
+		}
+		v, _ := diffExec(ExpandConsts(model), c.Auto, res.Out, worlds, fmt.Sprintf("opt=%v", opt))
 		if v != nil {
 			v.Clause = "autovar-behaviour"
 			v.Detail += "\n--- source\n" + src
@@ -110,8 +118,19 @@ func genC11(t *rapid.T) *C01Case {
 	cfg.CompoundP = 2
 	cfg.ExprMax = 5
 	cfg.NoGoto = rapid.Bool().Draw(t, "nogoto")
+	withPS := rapid.IntRange(0, 2).Draw(t, "withps") == 0
+	if withPS {
+		// AutoVar conditions and switches inside statement poryswitch cases (colon and brace form)
+		cfg.PS = 6
+		cfg.PSNoDirectContinue = true
+		cfg.PSNestedFallback = true
+		cfg.PSAlwaysFallback = true
+	}
 	n := rapid.IntRange(1, 2).Draw(t, "nscripts")
 	c := &C01Case{File: GenScripts(t, cfg, n), Auto: cfg.Auto}
+	if withPS {
+		c.Switches = map[string]string{"V": rapid.SampledFrom([]string{"A", "B", "1", "zz"}).Draw(t, "swV"), "W": rapid.SampledFrom([]string{"A", "B", "q"}).Draw(t, "swW")}
+	}
 	// inline text / moves() arguments, also on the AutoVar commands inside conditions
 	fcfg := DefaultFileCfg()
 	fcfg.CF = cfg
